@@ -4,7 +4,7 @@
 use std::{env, fs, thread};
 //#![feature(getpid)]
 //use std::process;
-use std::io::{BufRead, BufReader};
+use std::io::{BufRead, BufReader, Read};
 use std::mem;
 use std::net::{TcpListener, TcpStream};
 #[cfg(unix)]
@@ -607,14 +607,27 @@ pub fn listen<S: ?Sized + AsRef<str>, H: crate::ConnectionHandler + Send + Sync 
             let (r, mut w) = stream.split().unwrap();
             let mut br = BufReader::new(r);
             let mut iface: Option<String> = None;
+            // bytes handle() had already read behind an upgrade request
+            let mut readahead: Vec<u8> = Vec::new();
             loop {
-                match handler.handle(&mut br, &mut w, iface.clone()) {
-                    Ok((_, i)) => {
+                let res = {
+                    let pending = mem::take(&mut readahead);
+                    let mut input = pending.as_slice().chain(&mut br);
+                    handler.handle(&mut input, &mut w, iface.clone())
+                };
+                match res {
+                    Ok((tail, i)) => {
+                        if iface.is_none() && i.is_some() {
+                            // they belong to the upgraded handler, not to the bin
+                            readahead = tail;
+                        }
                         iface = i;
-                        match br.fill_buf() {
-                            Err(_) => break,
-                            Ok([]) => break,
-                            _ => {}
+                        if readahead.is_empty() {
+                            match br.fill_buf() {
+                                Err(_) => break,
+                                Ok([]) => break,
+                                _ => {}
+                            }
                         }
                     }
                     Err(err) => {
